@@ -218,6 +218,9 @@ func (r *shRender) stmt(s *shNode, ind int) {
 	case "for3":
 		r.nvar++
 		v := fmt.Sprintf("i%d", r.nvar)
+		if r.style != nil && r.style.Bool() {
+			v = "i" // nested loops may all call their variable i: each post statement advances its own loop's variable
+		}
 		r.line(ind, "for %s := 0; %s < 2; %s++ {", v, v, v)
 		if r.style != nil && r.style.Chance(1, 3) {
 			// the body's own variable of the same name; the post statement still advances the loop's
